@@ -217,6 +217,20 @@ Proof.
   rewrite firstn_ge_all, skipn_ge_nil by assumption. reflexivity.
 Qed.
 
+Lemma chunks_app_blocks n : forall q a b, 0 < n -> length a = q * n ->
+  chunks n (a ++ b) = chunks n a ++ chunks n b.
+Proof.
+  induction q as [|q IH]; intros a b Hn Ha.
+  - apply length_zero_nil in Ha. subst a. reflexivity.
+  - assert (Hf : length (firstn n a) = n) by (apply firstn_length_le; lia).
+    assert (Hr : length (skipn n a) = q * n) by (rewrite skipn_length; lia).
+    pose proof (list_split_at a n) as E.
+    remember (firstn n a) as blk. remember (skipn n a) as rest.
+    clear Heqblk Heqrest Ha. subst a. rewrite <- app_assoc.
+    rewrite (chunks_app_block n blk (rest ++ b)), (chunks_app_block n blk rest) by assumption.
+    cbn [app]. f_equal. apply IH; assumption.
+Qed.
+
 (* strong induction on a list by chunks of n *)
 Lemma chunk_induction n (P : bytes -> Prop) : 0 < n ->
   P [] -> (forall l, l <> [] -> P (skipn n l) -> P l) -> forall l, P l.
